@@ -45,12 +45,18 @@ Definition unread (s : astate) (c : N) : astate :=
 Definition is_blank (c : N) : bool := (c =? 32) || (c =? 9).
 Fixpoint drop_blanks (v : bytes) : bytes := match v with c :: v' => if is_blank c then drop_blanks v' else v | [] => [] end.
 Definition trim_right (v : bytes) : bytes := rev (drop_blanks (rev v)).
+(* a blank quoted by a backslash belongs to the value: after the trimming, an odd number of backslashes
+   at the end keeps the first of the trimmed blanks *)
+Fixpoint leading_bs (l : bytes) : nat := match l with c :: r => if c =? 92 then S (leading_bs r) else O | [] => O end.
+Definition trim_value (v : bytes) : bytes :=
+  let t := trim_right v in
+  if Nat.odd (leading_bs (rev t)) && Nat.ltb (length t) (length v) then firstn (S (length t)) v else t.
 Definition names (st : list entry) : list bytes := map ename st.
 
 Definition asubst (t : table) (s : astate) (name : bytes) : option astate :=
   match subst t (names (fst s)) name with
   | Some (_, v) =>
-    let tv := trim_right v in
+    let tv := trim_value v in
     Some (mkEntry name (tv ++ [32]) (Nat.ltb (length tv) (length v)) :: fst s, snd s)
   | None => None
   end.
@@ -123,7 +129,7 @@ Qed.
     the alias value (trailing blanks replaced by one blank) followed by what followed the word *)
 Theorem subst_is_textual_replacement : forall t s name s',
   asubst t s name = Some s' ->
-  exists v, alias_lookup name t = Some v /\ flatten s' = trim_right v ++ [32] ++ flatten s.
+  exists v, alias_lookup name t = Some v /\ flatten s' = trim_value v ++ [32] ++ flatten s.
 Proof.
   intros t [st src] name s'. unfold asubst, subst. cbn [fst snd].
   destruct (alias_lookup name t) as [v|] eqn:El; [|discriminate].
@@ -229,17 +235,53 @@ Proof.
     + split; [cbn [length]; lia|]. intros (v0 & c' & Hv' & Hb). rewrite Hv in Hv'. apply app_inj_tail in Hv' as [_ <-]. congruence.
 Qed.
 
-(** the flag recorded by subst says exactly whether the value ends in a blank; once the text of
+Lemma drop_blanks_split l : exists pre, l = pre ++ drop_blanks l /\ forallb is_blank pre = true.
+Proof.
+  induction l as [|c l IH]; [exists []; split; reflexivity|]. cbn [drop_blanks].
+  destruct (is_blank c) eqn:Eb; [|exists []; split; reflexivity].
+  destruct IH as (pre & Hl & Hp). exists (c :: pre). split; [cbn [app]; f_equal; exact Hl|cbn [forallb]; rewrite Eb; exact Hp].
+Qed.
+
+Lemma forallb_rev {A} (f : A -> bool) l : forallb f l = true -> forallb f (rev l) = true.
+Proof. intros H. apply forallb_forall. intros x Hx. apply in_rev in Hx. exact (proj1 (forallb_forall _ _) H x Hx). Qed.
+
+Lemma trim_right_split v : exists tail, v = trim_right v ++ tail /\ forallb is_blank tail = true.
+Proof.
+  destruct (drop_blanks_split (rev v)) as (pre & Hv & Hp). exists (rev pre). split; [|apply forallb_rev; exact Hp].
+  unfold trim_right. rewrite <- rev_app_distr, <- Hv, rev_involutive. reflexivity.
+Qed.
+
+Lemma firstn_snoc {A} (a : list A) c r : firstn (S (length a)) (a ++ c :: r) = a ++ [c].
+Proof. induction a as [|x a IH]; [reflexivity|]. cbn [length app firstn]. f_equal. exact IH. Qed.
+
+(** the text of the value and the blanks cut from its end *)
+Lemma trim_value_split v : exists tail, v = trim_value v ++ tail /\ forallb is_blank tail = true.
+Proof.
+  destruct (trim_right_split v) as (tail & Hv & Hb). unfold trim_value.
+  remember (trim_right v) as t eqn:Et. clear Et.
+  destruct (Nat.odd (leading_bs (rev t)) && Nat.ltb (length t) (length v)) eqn:E.
+  - apply Bool.andb_true_iff in E as [_ E]. apply Nat.ltb_lt in E.
+    destruct tail as [|c tail'].
+    + rewrite app_nil_r in Hv. subst v. lia.
+    + exists tail'. cbn [forallb] in Hb. apply Bool.andb_true_iff in Hb as [_ Hb]. split; [|exact Hb].
+      subst v. rewrite firstn_snoc, <- app_assoc. reflexivity.
+  - exists tail. split; assumption.
+Qed.
+
+(** the flag recorded by subst says exactly whether blanks were cut from the end of the value (a
+    blank quoted by a backslash is part of the value's text and is not cut); once the text of
     such a value has been read to its end the next word is examined for substitution *)
 Theorem blank_rule : forall t s name s' e below,
   asubst t s name = Some s' -> fst s' = e :: below ->
-  (eblank e = true <-> exists v v0 c, alias_lookup name t = Some v /\ v = v0 ++ [c] /\ is_blank c = true) /\
+  (eblank e = true <-> exists v tail, alias_lookup name t = Some v /\ v = trim_value v ++ tail /\ tail <> [] /\ forallb is_blank tail = true) /\
   blank_pending (set_rest e [] :: below) = eblank e || blank_pending below.
 Proof.
   intros t [st src] name s' e below Hs Hf. unfold asubst, subst in Hs. cbn [fst snd] in Hs.
   destruct (alias_lookup name t) as [v|] eqn:El; [|discriminate].
   destruct (on_stack name (names st)); [discriminate|]. inversion Hs; subst. cbn [fst] in Hf. inversion Hf; subst. cbn [eblank].
-  split; [|reflexivity]. rewrite Nat.ltb_lt, trim_right_blank. split.
-  - intros (v0 & c & Hv & Hb). exists v, v0, c. auto.
-  - intros (v' & v0 & c & Hv' & Hv & Hb). inversion Hv'; subst. eauto.
+  split; [|reflexivity]. rewrite Nat.ltb_lt. split.
+  - intros Hlt. destruct (trim_value_split v) as (tail & Hv & Hb). exists v, tail. repeat split; try assumption.
+    intros ->. rewrite app_nil_r in Hv. rewrite <- Hv in Hlt. lia.
+  - intros (v' & tail & Hv' & Hv & Hne & _). inversion Hv'; subst v'.
+    rewrite Hv at 2. rewrite app_length. destruct tail; [congruence|cbn [length]; lia].
 Qed.
